@@ -83,9 +83,15 @@ def run(c):
     records, meta, n_enum = [], [], 0
     with tempfile.TemporaryDirectory(prefix="c41_", dir="/dev/shm" if os.path.isdir("/dev/shm") else None) as td:
         for uni, bound in plans:
-            r = c.mc_holds("HostKeys", cfg_text(constants=consts(keep=True, fi=True, fs=True, **uni, **bound), invariants=INVS + ["Emit"]),
-                           name="history generation %s" % (bound,), workers=4)
-            cases = [tla.parse(cs[1]) for cs in r.printed("CASE")]      # [hist, store], one single-line print per state
+            for nw in (4, 1):      # single-line prints survive several workers; if a line is ever damaged, once more with one
+                r = c.mc_holds("HostKeys", cfg_text(constants=consts(keep=True, fi=True, fs=True, **uni, **bound), invariants=INVS + ["Emit"]),
+                               name="history generation %s" % (bound,), workers=nw)
+                try:
+                    cases = [tla.parse(cs[1]) for cs in r.printed("CASE")]      # [hist, store], one single-line print per state
+                except Exception:                                                # noqa
+                    cases = []
+                if len(cases) == r.distinct:
+                    break
             if len(cases) != r.distinct:
                 raise Machinery("expected one CASE per state: %d vs %d" % (len(cases), r.distinct))
             # only maximal histories need running (every prefix is observed on the way)
@@ -121,11 +127,18 @@ def run(c):
     chunk = 6000
     for lo in range(0, len(records), chunk):
         part = records[lo:lo + chunk]
-        res, _ = c.trace("HostKeys_Trace", part, cfg_text(spec="TSpec", constants=tconst, invariants=["Report"]), heap="8g", workers=4)
+        for nw in (4, 1):
+            try:
+                res, _ = c.trace("HostKeys_Trace", part, cfg_text(spec="TSpec", constants=tconst, invariants=["Report"]), heap="8g", workers=nw)
+                rows = [tla.parse(row[1]) for row in res["VERDICT"]]
+                if len(res["DONE"]) == len(part):
+                    break
+            except Exception:                 # noqa: a damaged print line, whatever it breaks
+                if nw == 1:
+                    raise
         if len(res["DONE"]) != len(part):
             raise Machinery("trace validation consumed %d of %d records" % (len(res["DONE"]), len(part)))
-        for row in res["VERDICT"]:
-            tid, line, bad = tla.parse(row[1])
+        for tid, line, bad in rows:
             ops = meta[lo + tid - 1]
             rec = records[lo + tid - 1]
             for name, detail in bad:
